@@ -32,6 +32,15 @@ type soundCase struct {
 	// Pat is then the pattern the requests have to fit: mount prefix + RegPat
 	Mount  *soundMount `json:"mount,omitempty"`
 	RegPat pattern     `json:"-"`
+	// SharedMW: a middleware registered before the judged route, under the judged pattern's first
+	// literal followed by one parameter that bears the NAME of a later parameter of the judged
+	// pattern; it reads that parameter and calls Next
+	SharedMW *sharedMW `json:"middleware_sharing_a_parameter_name,omitempty"`
+}
+
+type sharedMW struct {
+	Pattern string `json:"pattern"`
+	Name    string `json:"name"`
 }
 
 type soundMount struct {
@@ -155,6 +164,25 @@ func genSoundCase(r *gen.Rand) *soundCase {
 		}
 	}
 	sc.Pat = pattern{Toks: toks}
+	if r.Chance(1, 3) {
+		// a middleware in front whose only parameter has the name of the judged pattern's second
+		// or later named parameter (same name, other position)
+		var later []string
+		seen := 0
+		for _, t := range toks {
+			if t.Kind == tLit {
+				continue
+			}
+			if seen > 0 && (t.Kind == tNamed || t.Kind == tNamedOpt) {
+				later = append(later, t.Name)
+			}
+			seen++
+		}
+		if len(later) > 0 {
+			name := gen.Pick(r, later)
+			sc.SharedMW = &sharedMW{Name: name, Pattern: pattern{Toks: []tok{toks[0], {Kind: tNamed, Name: name}}}.String()}
+		}
+	}
 	if r.Chance(1, 4) {
 		// registered on a sub-app mounted by the serving app
 		sc.Mount = &soundMount{Prefix: gen.Pick(r, []string{"/", "/", "/m", "/Mnt", "/m/"}), SubCaseSensitive: r.Bool(), SubStrict: r.Bool(),
@@ -217,6 +245,8 @@ type soundObs struct {
 	path   string
 	route  string
 	nCalls int
+	rot    int  // where the handler starts reading its parameters
+	mwRan  bool // the middleware sharing a parameter name ran (and read that parameter)
 }
 
 func runSound(e *ev.Env) {
@@ -277,6 +307,8 @@ func runSound(e *ev.Env) {
 					vals[i] = gen.Pick(r, sc.odd[i])
 				case (t.Kind == tNamedOpt || t.Kind == tStar) && r.Chance(1, 4):
 					vals[i] = ""
+				case t.Kind == tNamed && r.Chance(1, 12):
+					vals[i] = "" // the request leaves the (required) value out
 				case r.Chance(1, 20):
 					vals[i] = gen.Pick(r, []string{"", "/", "a/b", "-", ".", "%2F", " ", ":x", "*"})
 				default:
@@ -412,8 +444,9 @@ func checkSound(e *ev.Env, c *ev.Case, sc *soundCase, paths []string) {
 		obs.ran = true
 		obs.nCalls++
 		obs.vals = map[string]string{}
-		for _, k := range keys {
-			if k != "" {
+		// the keys are read in an order that changes from request to request
+		for j := range keys {
+			if k := keys[(j+obs.rot)%len(keys)]; k != "" {
 				obs.vals[k] = strings.Clone(cx.Params(k))
 			}
 		}
@@ -432,6 +465,14 @@ func checkSound(e *ev.Env, c *ev.Case, sc *soundCase, paths []string) {
 			}
 		}
 		pass := func(cx fiber.Ctx) error { return cx.Next() }
+		if sc.SharedMW != nil {
+			name := sc.SharedMW.Name
+			target.Use(sc.SharedMW.Pattern, func(cx fiber.Ctx) error {
+				obs.mwRan = true
+				_ = cx.Params(name)
+				return cx.Next()
+			})
+		}
 		if sc.Neigh != nil && sc.NeighFirst {
 			reg(sc.Neigh.String(), pass)
 		}
@@ -461,11 +502,11 @@ func checkSound(e *ev.Env, c *ev.Case, sc *soundCase, paths []string) {
 			hasCons = true
 		}
 	}
-	for _, p := range paths {
+	for pi, p := range paths {
 		if strings.ContainsAny(p, "?#") {
 			continue
 		}
-		obs = soundObs{}
+		obs = soundObs{rot: pi}
 		var resp *drive.Resp
 		if e.Guard(c, "sound|dispatch", map[string]any{"pattern": text, "path": p}, func() { resp = do(d, "GET", p) }) {
 			continue
@@ -506,6 +547,10 @@ func checkSound(e *ev.Env, c *ev.Case, sc *soundCase, paths []string) {
 		}
 		if sc.Mount != nil {
 			class += "+route-of-mounted-app"
+		}
+		if obs.mwRan {
+			class += "+after-middleware-with-same-parameter-name-at-other-position"
+			e.Stat("ran_after_middleware_sharing_a_parameter_name", 1)
 		}
 		// (c) structural rules
 		vals := make([]string, len(sc.Pat.Toks))
